@@ -534,4 +534,94 @@ theorem setIfAbsent_refines (c : Cfg) (s : Spec.State) (t : Tbl) (k v : Nat) (hs
       rw [himpl, hspec]
       exact ⟨hset.1, rfl, hset.2.2⟩
 
+/-! ### Compute -/
+
+/-- the write rule alone (what Set, Compute's WriteOp and a load's installation share) -/
+theorem write_refines (c : Cfg) (s : Spec.State) (t : Tbl) (k v : Nat) (hs : s.m = absT t)
+    (hnow : -4611686018427387904 < s.now ∧ s.now < 4611686018427387904)
+    (hwf : ∀ o, lookup t k = some o → NodeOk k o) (hk1 : KindOk c.expiry) (hk2 : KindOk c.refresh) :
+    absT (store t k (atomicSet (cfgOf c) k v (lookup t k) s.now).1) = (Spec.write c (s.clearInflight k) k v).1.m ∧
+    (atomicSet (cfgOf c) k v (lookup t k) s.now).2 = (Spec.write c (s.clearInflight k) k v).2 := by
+  have hset := set_refines c s t k v hs hnow hwf hk1 hk2
+  cases hl : lookup t k with
+  | none => rw [set_none _ _ _ _ _ hl] at hset; exact ⟨hset.1, hset.2.2⟩
+  | some o => rw [set_some _ _ _ _ _ o hl] at hset; exact ⟨hset.1, hset.2.2⟩
+
+theorem invalidate_some (t : Tbl) (k : Nat) (now : Int) (o : TNode) (hl : lookup t k = some o) :
+    invalidate t k now = (unlink t k, (if hasExpired o now then Out.valOk 0 false else Out.valOk o.val true),
+      [{ key := o.key, val := o.val, cause := getCause o now .invalidation }]) := by
+  unfold invalidate; rw [hl]
+
+theorem invalidate_none (t : Tbl) (k : Nat) (now : Int) (hl : lookup t k = none) :
+    invalidate t k now = (t, Out.valOk 0 false, []) := by
+  unfold invalidate; rw [hl]
+
+/-- **Compute** (its critical section): WriteOp, InvalidateOp, CancelOp, and a panicking or invalid answer -/
+theorem computeStep_refines (c : Cfg) (s : Spec.State) (t : Tbl) (k : Nat) (act : Spec.Act) (hs : s.m = absT t)
+    (hnow : -4611686018427387904 < s.now ∧ s.now < 4611686018427387904)
+    (hwf : ∀ o, lookup t k = some o → NodeOk k o) (hk1 : KindOk c.expiry) (hk2 : KindOk c.refresh) :
+    absT (computeStep (cfgOf c) t k act s.now).1 = (Spec.computeStep c s k act).1.m ∧
+    (computeStep (cfgOf c) t k act s.now).2.1 = (Spec.computeStep c s k act).2.1 ∧
+    (computeStep (cfgOf c) t k act s.now).2.2 = (Spec.computeStep c s k act).2.2 := by
+  have hinv := invalidate_refines s t k hs (fun o ho => (hwf o ho).1)
+  have hlive := live_abs s t k hs
+  have hphys := phys_abs s t k hs
+  have hrm1 : (Spec.invalidate s k).1 = (Spec.remove (s.clearInflight k) k .invalidation).1 := rfl
+  have hrm2 : (Spec.invalidate s k).2.2 = (Spec.remove (s.clearInflight k) k .invalidation).2 := rfl
+  rw [hrm1, hrm2] at hinv
+  cases act with
+  | panic => exact ⟨hs.symm, rfl, rfl⟩
+  | bad => exact ⟨hs.symm, rfl, rfl⟩
+  | write v =>
+    have hw := write_refines c s t k v hs hnow hwf hk1 hk2
+    exact ⟨hw.1, rfl, hw.2⟩
+  | invalidate =>
+    cases hl : lookup t k with
+    | none =>
+      rw [invalidate_none _ _ _ hl] at hinv
+      have himpl : computeStep (cfgOf c) t k .invalidate s.now = (t, Out.valOk 0 false, []) := by
+        unfold computeStep; rw [hl]
+      rw [himpl]
+      exact ⟨hinv.1, rfl, hinv.2.2⟩
+    | some o =>
+      rw [invalidate_some _ _ _ o hl] at hinv
+      have himpl : computeStep (cfgOf c) t k .invalidate s.now = (unlink t k, Out.valOk 0 false,
+          [{ key := o.key, val := o.val, cause := getCause o s.now .invalidation }]) := by
+        unfold computeStep; rw [hl]
+      rw [himpl]
+      exact ⟨hinv.1, rfl, hinv.2.2⟩
+  | cancel =>
+    cases hl : lookup t k with
+    | none =>
+      rw [hl] at hlive hphys
+      simp only [Option.map_none, Option.filter_none] at hlive hphys
+      have himpl : computeStep (cfgOf c) t k .cancel s.now = (t, Out.valOk 0 false, []) := by
+        unfold computeStep; rw [hl]
+      have hspec : Spec.computeStep c s k .cancel = (s, Out.valOk 0 false, []) := by
+        unfold Spec.computeStep; simp only [hlive, hphys]
+      rw [himpl, hspec]
+      exact ⟨hs.symm, rfl, rfl⟩
+    | some o =>
+      rw [hl] at hlive hphys
+      rw [invalidate_some _ _ _ o hl] at hinv
+      have hvis := visible_iff_live o s.now
+      simp only [Option.map_some] at hlive hphys
+      cases hx : hasExpired o s.now
+      · have hlv : (absN o).liveAt s.now = true := by rw [← hvis, hx]; rfl
+        have himpl : computeStep (cfgOf c) t k .cancel s.now = (t, Out.valOk o.val true, []) := by
+          unfold computeStep; rw [hl]; simp [hx]
+        have hspec : Spec.computeStep c s k .cancel = (s, Out.valOk (absN o).val true, []) := by
+          unfold Spec.computeStep; simp only [hlive, Option.filter, hlv, ↓reduceIte]
+        rw [himpl, hspec]
+        exact ⟨hs.symm, rfl, rfl⟩
+      · have hlv : (absN o).liveAt s.now = false := by rw [← hvis, hx]; rfl
+        have himpl : computeStep (cfgOf c) t k .cancel s.now = (unlink t k, Out.valOk 0 false,
+            [{ key := o.key, val := o.val, cause := getCause o s.now .invalidation }]) := by
+          unfold computeStep; rw [hl]; simp [hx]
+        have hspec : Spec.computeStep c s k .cancel = ((Spec.remove (s.clearInflight k) k .invalidation).1, Out.valOk 0 false,
+            (Spec.remove (s.clearInflight k) k .invalidation).2) := by
+          unfold Spec.computeStep; simp only [hlive, Option.filter, hlv, hphys, ↓reduceIte, Bool.false_eq_true]
+        rw [himpl, hspec]
+        exact ⟨hinv.1, rfl, hinv.2.2⟩
+
 end OtterVerif.Proofs.TableRefine
